@@ -707,10 +707,10 @@ Proof.
 Qed.
 
 Lemma zero_divisor_is_error : forall s x y r ps,
-  existsb dempty s = false -> memZ 0 (sget s y) = true ->
+  existsb dempty s = false -> existsb dom_too_large s = false -> memZ 0 (sget s y) = true ->
   validate s (PMod (VVar x) (VVar y) r :: ps) = Some EInvalidConstraint.
 Proof.
-  intros s x y r ps H0 H1. unfold validate. rewrite H0. simpl. rewrite H1. reflexivity.
+  intros s x y r ps H0 H2 H1. unfold validate. rewrite H0, H2. simpl. rewrite H1. reflexivity.
 Qed.
 
 (* m.lin_eq / lin_le / lin_ne with vectors of different length post nothing (the call records the
